@@ -10,10 +10,34 @@ use serde_json::{json, Value};
 use std::collections::HashMap;
 use std::panic::{catch_unwind, AssertUnwindSafe};
 
+thread_local! {
+    /// how the spec's two truth values are spelled in the rules, facts and queries: 0 booleans; 1 the strings "1" / "0";
+    /// 2 the strings "true" / "false"; 3 the strings "gold" / "silver" (the spec does not care; the engine must not either)
+    static ENC: std::cell::Cell<u64> = const { std::cell::Cell::new(0) };
+}
+pub fn set_enc(e: u64) {
+    ENC.with(|c| c.set(e % 4));
+}
+fn val(b: bool) -> RV {
+    match ENC.with(|c| c.get()) {
+        1 => RV::String(if b { "1" } else { "0" }.to_string()),
+        2 => RV::String(if b { "true" } else { "false" }.to_string()),
+        3 => RV::String(if b { "gold" } else { "silver" }.to_string()),
+        _ => RV::Boolean(b),
+    }
+}
+/// the literal as it is written in a query string
+fn lit(b: bool) -> String {
+    match val(b) {
+        RV::String(s) => format!("\"{}\"", s),
+        _ => if b { "true" } else { "false" }.to_string(),
+    }
+}
+
 fn atom(a: &Value) -> ConditionGroup {
     let f = a[0].as_str().unwrap();
     let b = a[1].as_str().unwrap() == "T";
-    ConditionGroup::single(Condition::new(format!("{}.v", f), Operator::Equal, RV::Boolean(b)))
+    ConditionGroup::single(Condition::new(format!("{}.v", f), Operator::Equal, val(b)))
 }
 
 pub fn mk_rule(i: usize, body: &Value, hf: &str, hv: &str, bad: bool) -> Rule {
@@ -22,7 +46,7 @@ pub fn mk_rule(i: usize, body: &Value, hf: &str, hv: &str, bad: bool) -> Rule {
         "and" => ConditionGroup::and(atom(&body["a"]), atom(&body["b"])),
         _ => ConditionGroup::or(atom(&body["a"]), atom(&body["b"])),
     };
-    let mut actions = vec![ActionType::Set { field: format!("{}.v", hf), value: RV::Boolean(hv == "T") }];
+    let mut actions = vec![ActionType::Set { field: format!("{}.v", hf), value: val(hv == "T") }];
     if bad {
         // the rule's action list fails after the assignment (method call on an object that does not exist)
         actions.push(ActionType::MethodCall { object: "Nope".to_string(), method: "boom".to_string(), args: vec![] });
@@ -49,8 +73,8 @@ pub fn mk_facts(m: &HashMap<String, String>) -> Facts {
     keys.sort();
     for k in keys {
         match m[k].as_str() {
-            "T" => f.set(&format!("{}.v", k), RV::Boolean(true)),
-            "F" => f.set(&format!("{}.v", k), RV::Boolean(false)),
+            "T" => f.set(&format!("{}.v", k), val(true)),
+            "F" => f.set(&format!("{}.v", k), val(false)),
             _ => {}
         }
     }
@@ -80,7 +104,7 @@ pub fn run_query(e: &mut BackwardEngine, facts: &mut Facts, gf: &str, gv: &str) 
 
 pub fn run_query_neg(e: &mut BackwardEngine, facts: &mut Facts, gf: &str, gv: &str, neg: bool) -> (String, bool, bool) {
     let before = facts.get_all_facts();
-    let q = format!("{}{}.v == {}", if neg { "NOT " } else { "" }, gf, if gv == "T" { "true" } else { "false" });
+    let q = format!("{}{}.v == {}", if neg { "NOT " } else { "" }, gf, lit(gv == "T"));
     let r = catch_unwind(AssertUnwindSafe(|| e.query(&q, facts)));
     let verdict = match r {
         Ok(Ok(res)) => if res.provable { "yes" } else { "no" }.to_string(),
@@ -88,7 +112,7 @@ pub fn run_query_neg(e: &mut BackwardEngine, facts: &mut Facts, gf: &str, gv: &s
         Err(_) => "panic".to_string(),
     };
     let after = facts.get_all_facts();
-    let holds = after.get(&format!("{}.v", gf)) == Some(&RV::Boolean(gv == "T"));
+    let holds = after.get(&format!("{}.v", gf)) == Some(&val(gv == "T"));
     (verdict, holds, before == after)
 }
 
@@ -102,6 +126,7 @@ pub struct BW {
 
 impl BW {
     pub fn new(cfg: &Value) -> BW {
+        set_enc(cfg["enc"].as_u64().unwrap_or(0));
         let mut b = BW { rules: vec![], facts: HashMap::new(), pengine: None, pfacts: Facts::new(),
                          rete: std::sync::Arc::new(std::sync::Mutex::new(rust_rule_engine::rete::propagation::IncrementalEngine::new())) };
         if let Some(setup) = cfg["setup"].as_array() {
@@ -126,8 +151,8 @@ impl Model for BW {
                 let (f, v) = (l["f"].as_str().unwrap(), l["v"].as_str().unwrap());
                 self.facts.insert(f.to_string(), v.to_string());
                 match v {
-                    "T" => self.pfacts.set(&format!("{}.v", f), RV::Boolean(true)),
-                    "F" => self.pfacts.set(&format!("{}.v", f), RV::Boolean(false)),
+                    "T" => self.pfacts.set(&format!("{}.v", f), val(true)),
+                    "F" => self.pfacts.set(&format!("{}.v", f), val(false)),
                     "S" => self.pfacts.set(&format!("{}.v", f), RV::String("true".to_string())),
                     _ => {
                         self.pfacts.remove(&format!("{}.v", f));
@@ -190,7 +215,7 @@ impl Model for BW {
                 let mut fresh = mk_engine(&self.rules, depth, strat, maxsol, true);
                 let (fv, _, _) = run_query_neg(&mut fresh, &mut copy, gf, gv, neg);
                 let pv = if with_rete {
-                    let q = format!("{}.v == {}", gf, if gv == "T" { "true" } else { "false" });
+                    let q = format!("{}.v == {}", gf, lit(gv == "T"));
                     let eng = self.rete.clone();
                     let pe = &mut self.pengine.as_mut().unwrap().0;
                     let pf = &mut self.pfacts;
@@ -243,7 +268,8 @@ pub fn cmd_bwrec(args: &Args) -> i32 {
     let mut f = std::io::BufWriter::new(std::fs::File::create(args.str("out", "bw.ndjson")).unwrap());
     let fields = ["A", "B", "C", "D", "E"];
     let (mut yes, mut no) = (0, 0);
-    for _ in 0..n {
+    for pi in 0..n {
+        set_enc(pi); // the spelling of the two truth values cycles through booleans and three pairs of strings
         let nf = 3 + rng.below(3);
         let mut nr = 1 + rng.below(8);
         let definite = rng.chance(1, 2);
